@@ -143,6 +143,60 @@ def run_case(case):
             nontrivial = True
             if any(l["dst"]["kind"] == "junc" for c in view.comps if c["kind"] == "junc" and float(np.sum(pre_["comps"][c["key"]])) > 0 for l in c["out"]):
                 R.count("flush_through_chain")
+        # the proportions the flush used are the ones in force at t0: a proportion that is a function of the (pre-flush) state
+        # must have been evaluated on that state, not left at its databook value
+        if spec is not None and had:
+            from av import feval
+
+            fw_pars = view.fw.pars
+            charac_members = {ch["name"]: ch.get("_flat") or ch["components"] for ch in spec.get("characs", [])}
+            comp_names = {c["name"] for c in spec["comps"]}
+            progs = case.get("progspec")
+            targeted = {(co["par"], co["pop"]) for co in (progs or {}).get("covouts", [])} if progs else set()
+            for (pop, src, dst, pname), used in pre_["props"].items():
+                fcn = fw_pars.at[pname, "function"] if pname in fw_pars.index else None
+                if not isinstance(fcn, str) or (pname, pop) in targeted or fcn.startswith(("SRC_", "TGT_")):
+                    continue
+                names = feval.names(fcn)
+                if not names <= (comp_names | set(charac_members) | {"t", "dt", "pi"}):
+                    continue  # depends on other parameters: not recomputed here (C06 covers the evaluation order)
+                env = {"t": float(view.t[0]), "dt": float(view.dt)}
+                for nme in names:
+                    if nme in comp_names:
+                        env[nme] = float(np.sum(pre_["comps"][(pop, nme)]))
+                    elif nme in charac_members:
+                        def _flat_members(cn, depth=0):
+                            out_ = []
+                            for m in charac_members[cn]:
+                                out_ += _flat_members(m, depth + 1) if (m in charac_members and depth < 6) else [m]
+                            return list(dict.fromkeys(out_))
+                        num_ = sum(float(np.sum(pre_["comps"][(pop, m)])) for m in _flat_members(nme) if (pop, m) in pre_["comps"])
+                        den_name = [ch.get("denominator") for ch in spec["characs"] if ch["name"] == nme][0]
+                        if den_name:
+                            den_ = sum(float(np.sum(pre_["comps"][(pop, m)])) for m in (_flat_members(den_name) if den_name in charac_members else [den_name]) if (pop, m) in pre_["comps"])
+                            if not den_ > 1e-3 or num_ < 1e-3:
+                                env = None  # (the 0/0 and tiny-numerator conventions of reported fractions are not reproduced here)
+                                break
+                            env[nme] = num_ / den_
+                        else:
+                            env[nme] = num_
+                if env is None:
+                    continue
+                try:
+                    val = float(feval.evaluate(feval.parse(fcn), env, strict=True))
+                except Exception:
+                    continue
+                par = view.pars.get((pop, pname))
+                if par is None or not np.isfinite(val):
+                    continue
+                val *= float(getattr(par, "scale_factor", 1.0))
+                if par.limits is not None:
+                    val = min(max(val, par.limits[0]), par.limits[1])
+                R.count("flush_proportions_recomputed")
+                if abs(val - used) > 1e-9 * max(1.0, abs(val)):
+                    R.bad("flush-uses-proportions-in-force", "C04:flush-used-a-stale-proportion[function]", {"junction": [pop, src], "par": pname, "function": fcn, "used_by_flush": used, "value_on_pre_flush_state": val})
+                else:
+                    R.ok("flush-uses-proportions-in-force")
         tot_pre = sum(float(np.sum(v)) for k, v in pre_["comps"].items())
         tot_post = sum(float(np.sum(v)) for k, v in post_["comps"].items())
         if np.isfinite(tot_pre) and np.isfinite(tot_post) and abs(tot_pre - tot_post) > 1e-9 * max(1.0, abs(tot_pre)):
